@@ -67,7 +67,7 @@ def decodePath (kind method status werr : String) : Option Path := do
   | ["transportConnectRejected"] => some (.transportConnectRejected m st w)
   | ["responseModifierError"] => some (.responseModifierError m st w)
   | ["response"] => some (.response m st w)
-  | ["upgradeNonWritable"] => some (.upgradeNonWritable m)
+  | ["upgradeNonWritable"] => some (.upgradeNonWritable m w)
   | ["upgrade", e] => (decodeEnd e).map (.upgrade m)
   | ["connectRefused"] => some (.connectRefused st w)
   | ["connectDialFailure"] => some (.connectDialFailure st w)
